@@ -1236,6 +1236,9 @@ impl Vm {
         self.active_fiber_mut().frames.pop();
         if self.active_fiber().has_finished() {
             if self.active_fiber().caller.is_some() {
+                // Nothing can run on this fiber again: do not keep what its body left on its
+                // value stack alive for as long as somebody holds on to the fiber object.
+                self.active_fiber_mut().stack.truncate(prev_stack_size);
                 self.unload_fiber(None)?;
                 self.poke(0, result);
                 return Ok(None);
